@@ -112,7 +112,10 @@ def gen_program(rng, conflict=None):
 
 
 def run(chk):
-    build, oracle, tables = emucheck.setup(chk)
+    build, oracle, tables = emucheck.setup(chk, extra_units=("pv", "connect"))   # connect: ovni/mark.c wiring (C17_mark_wiring_from_source_partial)
+    chk.trusted_base.append("translate/units/connect.py: the connect-time code of ovni/mark.c (and of thread.c, cpu.c, track.c, model_*.c) translated to "
+                            "Gallina on every run and run inside Coq from the empty bay (C17_mark_wiring_from_source_partial); hand-written prelude "
+                            "coq/Emu/ConnectPre.v and driver ConnectProofs.connect_all; scan_thread is not translated")
     chk.trusted_base.append("harness/mark_drv.c: script driver on the real libovni with an interposed clock_gettime; calls that may abort are tried in a forked child")
     chk.assumptions = ["threads of the driver run one after the other (concurrency of the runtime is C11's subject)",
                        "events of undefined or mismatching types are written by the runtime and refused in emulation, as the property allows"]
